@@ -19,6 +19,7 @@ import (
 	"github.com/aperturerobotics/util/csync"
 	"github.com/aperturerobotics/util/memo"
 	"github.com/aperturerobotics/util/promise"
+	"github.com/aperturerobotics/util/routine"
 	"pgregory.net/rapid"
 	"verif/harness/ev"
 	"verif/harness/sched"
@@ -469,5 +470,80 @@ func TestC18Free(t *testing.T) {
 				}
 			}
 			mu.Unlock()
+		})
+}
+
+// ---- C05: a superseding call returns only after the instance is cancelled, also under lock contention ----
+
+func TestC05Free(t *testing.T) {
+	drive(t, "C05", "a StateRoutineContainer with a running instance; 1..9 contender goroutines keep the container lock busy (GetState / SetState(unchanged) with a yielding compare function) while one goroutine issues a superseding call (ClearContext | SetContext(nil) | SetState(empty) | SetState(other) | SetStateRoutine(nil) | RestartRoutine); oracle: when that call returns the instance that was running has a cancelled context; non-trivial iff >= 2 goroutines; distinct by program", 12,
+		func(cs Case, v *ev.Verdict) {
+			f := &failer{v: v}
+			rounds := cs.G[0]
+			for _, code := range rounds {
+				sc := routine.NewStateRoutineContainer[int](func(a, b int) bool { runtime.Gosched(); return a == b })
+				type inst struct{ ctx context.Context }
+				var cur atomic.Pointer[inst]
+				var entered atomic.Int32
+				sc.SetStateRoutine(func(ctx context.Context, st int) error {
+					cur.Store(&inst{ctx})
+					entered.Add(1)
+					<-ctx.Done()
+					return ctx.Err()
+				})
+				root, cancel := context.WithCancel(context.Background())
+				sc.SetContext(root, false)
+				sc.SetState(1)
+				for entered.Load() == 0 {
+					runtime.Gosched()
+				}
+				old := cur.Load()
+				var stop atomic.Bool
+				var wg sync.WaitGroup
+				for g := 1; g < len(cs.G); g++ {
+					wg.Add(1)
+					go func() {
+						defer wg.Done()
+						for !stop.Load() {
+							if g%2 == 0 {
+								_ = sc.GetState()
+							} else {
+								sc.SetState(1) // unchanged: compare (which yields) runs under the lock
+							}
+						}
+					}()
+				}
+				runtime.Gosched()
+				name := ""
+				switch code % 6 {
+				case 0:
+					name = "ClearContext"
+					sc.ClearContext()
+				case 1:
+					name = "SetContext(nil,false)"
+					sc.SetContext(nil, false)
+				case 2:
+					name = "SetState(empty)"
+					sc.SetState(0)
+				case 3:
+					name = "SetState(other)"
+					sc.SetState(2)
+				case 4:
+					name = "SetStateRoutine(nil)"
+					sc.SetStateRoutine(nil)
+				default:
+					name = "RestartRoutine"
+					if !sc.RestartRoutine() {
+						name = ""
+					}
+				}
+				if name != "" && old.ctx.Err() == nil {
+					f.add("C05", "routine:superseded-not-cancelled", "%s returned while %d goroutines kept the container busy, but the instance it superseded still has a live context", name, len(cs.G)-1)
+				}
+				stop.Store(true)
+				wg.Wait()
+				sc.ClearContext()
+				cancel()
+			}
 		})
 }
